@@ -1,6 +1,7 @@
 package gen
 
 import (
+	"crypto"
 	"crypto/ecdsa"
 	"crypto/elliptic"
 	"crypto/rand"
@@ -11,6 +12,7 @@ import (
 	"encoding/asn1"
 	"encoding/pem"
 	"fmt"
+	"io"
 	"math/big"
 	"time"
 )
@@ -137,7 +139,7 @@ func Issue(s CertSpec) (*x509.Certificate, []byte) {
 	if parent == nil {
 		parent = tmpl
 	}
-	der, err := x509.CreateCertificate(rand.Reader, tmpl, parent, s.Pub, s.SignKey)
+	der, err := x509.CreateCertificate(rand.Reader, tmpl, parent, s.Pub, detSigner{s.SignKey})
 	if err != nil {
 		panic(fmt.Sprintf("CreateCertificate(%s): %v", s.CN, err))
 	}
@@ -306,7 +308,7 @@ func CRL(issuer *x509.Certificate, key *ecdsa.PrivateKey, revoked []*big.Int, th
 	}
 	der, err := x509.CreateRevocationList(rand.Reader, &x509.RevocationList{
 		Number: big.NewInt(1), ThisUpdate: thisUpdate, NextUpdate: nextUpdate, RevokedCertificates: rc,
-	}, issuer, key)
+	}, issuer, detSigner{key})
 	if err != nil {
 		panic(fmt.Sprintf("CreateRevocationList: %v", err))
 	}
@@ -333,12 +335,26 @@ func NamedKey(seed int64, name string) *ecdsa.PrivateKey {
 
 // SignRSDet signs SHA-256(msg) with a nonce derived from (key, msg, tag): same inputs, same 64 bytes.
 func SignRSDet(k *ecdsa.PrivateKey, msg []byte, tag string) []byte {
+	z := sha256.Sum256(msg)
+	return signDigestDet(k, z[:], tag)
+}
+
+// detSigner makes certificates and CRLs a function of their content: two realisations with one seed carry
+// byte-identical chains, so anything remembered about a chain in one call is found again in the next.
+type detSigner struct{ k *ecdsa.PrivateKey }
+
+func (d detSigner) Public() crypto.PublicKey { return &d.k.PublicKey }
+func (d detSigner) Sign(_ io.Reader, digest []byte, _ crypto.SignerOpts) ([]byte, error) {
+	rs := signDigestDet(d.k, digest, "x509")
+	return asn1.Marshal(struct{ R, S *big.Int }{new(big.Int).SetBytes(rs[:32]), new(big.Int).SetBytes(rs[32:])})
+}
+
+func signDigestDet(k *ecdsa.PrivateKey, z []byte, tag string) []byte {
 	curve := elliptic.P256()
 	n := curve.Params().N
-	z := sha256.Sum256(msg)
-	e := new(big.Int).SetBytes(z[:])
+	e := new(big.Int).SetBytes(z)
 	for ctr := 0; ; ctr++ {
-		hn := sha256.Sum256(append(append(k.D.Bytes(), z[:]...), []byte(fmt.Sprintf("/%s/%d", tag, ctr))...))
+		hn := sha256.Sum256(append(append(k.D.Bytes(), z...), []byte(fmt.Sprintf("/%s/%d", tag, ctr))...))
 		kk := new(big.Int).SetBytes(hn[:])
 		kk.Mod(kk, new(big.Int).Sub(n, big.NewInt(1)))
 		kk.Add(kk, big.NewInt(1))
